@@ -93,6 +93,7 @@ static void dump(qhashtbl_t *t) {
 int main(void) {
     qv_install();
     { struct sigaction sa; memset(&sa, 0, sizeof sa); sa.sa_handler = qv_segv; sa.sa_flags = SA_NODEFER; sigaction(SIGFPE, &sa, NULL); }   /* hash % 0 */
+    static unsigned ntab;
     qhashtbl_t *t = qhashtbl(0, 0); int dead = 0;
     while (fgets(line, sizeof line, stdin)) {
         if (line[0] == '#' || line[0] == '\n') continue;
@@ -100,7 +101,7 @@ int main(void) {
         sscanf(line, "%31s %s %s", op, a1, a2);
         if (!strcmp(op, "new")) {
             if (t && !dead) qhashtbl_free(t);
-            t = qhashtbl((size_t)strtoull(a1, NULL, 10), 0); dead = 0; reset_ids(); continue;
+            t = qhashtbl((size_t)strtoull(a1, NULL, 10), (++ntab & 1) ? 0 : QHASHTBL_THREADSAFE); dead = 0;   /* every other table with its lock */ reset_ids(); continue;
         }
         if (!strcmp(op, "dump")) { dumpmode = atoi(a1); continue; }
         if (!strcmp(op, "hash")) { size_t nk = unhex(a1, b1); void *k = dupbuf(b1, nk); printf("hash %u\n", qhashmurmur3_32(k, nk)); scribble_free(k, nk); continue; }
